@@ -3,7 +3,7 @@ open Driver_base
 open Print
 
 (* C12: Fprint <print case> bufsize mode k => n err calls srccalls nacc byte* *)
-let () = reg "C12" "Fprint" (fun ver args obs ->
+let fprint_handler prop = reg prop "Fprint" (fun ver args obs ->
   let a = mk args in
   let p = parse_print ver a in
   let size = next_int a in let mode = next_int a in let k = next_z a in
@@ -60,3 +60,6 @@ let () = reg "C12" "Fprint" (fun ver args obs ->
     let v = { model; tags; spec; known } in
     (* a hang that the pinned gap loop explains is reported under its own key *)
     if obs = ["TIMEOUT"] && known <> None then { v with model = obs } else v)
+
+let () = fprint_handler "C12"
+let () = fprint_handler "C06"
